@@ -93,6 +93,9 @@ type c23Case struct {
 	Init      c23Op        `json:"init"` // initial limits
 	Threads   [][]c23Op    `json:"threads"`
 	Loads     []c23LoadBeh `json:"loads"`
+	// end of the history as in the repo's TestCache2Parallel: shutdown().Wait() right after the last Get returned
+	// (chunk loaders may still be post-processing), then compare the counters with a recount of what is left
+	ShutdownFirst bool `json:"shutdown_first,omitempty"`
 }
 
 // what is saved as the replay file: the plan and (filled on failure) the full stamped history
@@ -148,6 +151,8 @@ type c23Hist struct {
 	Deadlock   bool      `json:"deadlock,omitempty"`    // certificate: every one of them is blocked and no timer can wake the trimmer
 	Accounting string    `json:"accounting,omitempty"`
 	ClockSkew  int64     `json:"clock_skew_ns,omitempty"`
+	// shutdown-first ending: counters read right after shutdown().Wait() returned (transient, not asserted)
+	AfterShutdown string `json:"after_shutdown,omitempty"`
 }
 
 // ---------------------------------------------------------------- time helpers (independent of the cache code)
@@ -675,6 +680,19 @@ func c23Execute(c *c23Case, hangAfter time.Duration) c23Outcome {
 		r.mu.Unlock()
 		return c23Outcome{hist: hist, hang: true}
 	}
+	if c.ShutdownFirst {
+		down := make(chan struct{})
+		go func() { r.cache.shutdown().Wait(); close(down) }()
+		if !waitFor(down) {
+			collect()
+			hist.HangStacks, _ = c23CacheStacks()
+			hist.Hang = fmt.Sprintf("no progress for %v: shutdown().Wait() does not return", hangAfter)
+			return c23Outcome{hist: hist, hang: true}
+		}
+		if info := r.cache.runtimeInfo(); !c23InfoZero(info) {
+			hist.AfterShutdown = fmt.Sprintf("size=%v bucketCount=%v chunkCount=%v", info.sizeS, info.bucketCountS, info.chunkCountS)
+		}
+	}
 	// quiescence: background loads (refreshes, loads of cancelled requests) end
 	idle := make(chan struct{})
 	go func() {
@@ -693,6 +711,37 @@ func c23Execute(c *c23Case, hangAfter time.Duration) c23Outcome {
 		return c23Outcome{hist: hist, hang: true}
 	}
 	collect()
+	if c.ShutdownFirst {
+		// every chunk loader has returned and the trimmer is gone: the counters must equal a recount of the content
+		// that shutdown left behind (it stops trimming as soon as the momentary size is <= 0)
+		deadline := time.Now().Add(2 * time.Second)
+		for {
+			info := r.cache.runtimeInfo()
+			nb, nc, ncs, sz := 0, 0, 0, 0
+			for _, shard := range r.cache.shards {
+				shard.mu.Lock()
+				for _, b := range shard.bucketM {
+					b.mu.Lock()
+					nb++
+					nc += len(b.chunks)
+					ncs += len(b.chunks) * b.chunkSize
+					sz += sizeofCache2Chunks(b.chunks)
+					b.mu.Unlock()
+				}
+				shard.mu.Unlock()
+			}
+			if info.sizeS[0]+info.sizeS[1] == sz && info.bucketCountS[0]+info.bucketCountS[1] == nb &&
+				info.chunkCountS[0]+info.chunkCountS[1] == nc && info.chunkSizeS[0]+info.chunkSizeS[1] == ncs {
+				break
+			}
+			if time.Now().After(deadline) {
+				hist.Accounting = fmt.Sprintf("after shutdown().Wait() and the end of every chunk load: counters size=%v bucketCount=%v chunkSize=%v chunkCount=%v, recount of the content left: size=%d buckets=%d chunkSlots=%d chunks=%d",
+					info.sizeS, info.bucketCountS, info.chunkSizeS, info.chunkCountS, sz, nb, ncs, nc)
+				return c23Outcome{hist: hist}
+			}
+			time.Sleep(time.Millisecond)
+		}
+	}
 	// empty the cache, stop it, then the accounting must drain to zero
 	down := make(chan struct{})
 	go func() {
@@ -734,6 +783,7 @@ type c23Stats struct {
 	playGets, nocacheGets         int
 	invals, resets, lims          int
 	joinedStale                   int // tolerated by the statement, counted: see c23Check
+	transientAfterShutdown        int
 }
 
 func c23Check(h *c23Hist, loc *time.Location) (viol []string, st c23Stats) {
@@ -866,6 +916,9 @@ func c23Check(h *c23Hist, loc *time.Location) (viol []string, st c23Stats) {
 	if h.Accounting != "" {
 		viol = append(viol, "accounting: "+h.Accounting)
 	}
+	if h.AfterShutdown != "" {
+		st.transientAfterShutdown++
+	}
 	if len(viol) > 12 {
 		viol = append(viol[:12], fmt.Sprintf("... and %d more", len(viol)-12))
 	}
@@ -966,6 +1019,12 @@ func c23Prop(t vpT, s *c23Saved, reps int, budget time.Duration) (nontrivial boo
 		}
 		if st.nocacheGets > 0 {
 			cls["cache-disabled-user"] = true
+		}
+		if c.ShutdownFirst {
+			cls["shutdown-first-ending"] = true
+		}
+		if st.transientAfterShutdown > 0 {
+			cls["counters-nonzero-right-after-shutdown(transient,not-asserted)"] = true
 		}
 		if rep == 0 {
 			c23Totals.add(st)
@@ -1080,17 +1139,66 @@ func c23GenChurn(t *rapid.T) c23Case {
 	return c
 }
 
+// c23GenStorm: the shape of the repo's TestCache2Parallel: a hard limit far below a single chunk (every request
+// waits for the trimmer to empty the cache), many goroutines, all steps, play 0..14, fast loads, and the
+// shutdown-first ending.
+func c23GenStorm(t *rapid.T) c23Case {
+	var c c23Case
+	c.ChunkSize = rapid.SampledFrom([]int{0, 0, 5}).Draw(t, "chunkSize")
+	c.Zone = rapid.IntRange(0, 2).Draw(t, "zone")
+	ns := rapid.IntRange(2, 4).Draw(t, "nsteps")
+	for len(c.Steps) < ns {
+		s := rapid.SampledFrom([]int64{1, 5, 15, 60, 300, 900, 3600, 4 * 3600, 24 * 3600, 7 * 24 * 3600}).Draw(t, "step")
+		dup := false
+		for _, x := range c.Steps {
+			dup = dup || x == s
+		}
+		if !dup {
+			c.Steps = append(c.Steps, s)
+		}
+	}
+	c.Init = c23Op{K: "lim", MaxSize: rapid.SampledFrom([]int{32, 32, 32, 5000}).Draw(t, "maxSize")}
+	c.ShutdownFirst = true
+	nq := rapid.IntRange(2, 12).Draw(t, "queries")
+	nth := rapid.IntRange(8, 16).Draw(t, "threads")
+	for th := 0; th < nth; th++ {
+		play := rapid.IntRange(0, 14).Draw(t, "play") // one play interval per goroutine, as in the repo test
+		nops := rapid.IntRange(6, 20).Draw(t, "ops")
+		var ops []c23Op
+		for i := 0; i < nops; i++ {
+			si := rapid.IntRange(0, len(c.Steps)-1).Draw(t, "stepIx")
+			cs := c23ChunkSlots(c.ChunkSize, c.Steps[si])
+			op := c23Op{K: "get", StepIx: si, Q: rapid.IntRange(1, nq).Draw(t, "q"), Play: play}
+			op.Off = rapid.IntRange(0, 3*cs-1).Draw(t, "off")
+			op.Len = rapid.IntRange(1, 9).Draw(t, "len")
+			if rapid.IntRange(0, 9).Draw(t, "near") == 0 {
+				op.Near = true
+				op.Off = rapid.IntRange(0, 9).Draw(t, "nearOff")
+			}
+			ops = append(ops, op)
+		}
+		c.Threads = append(c.Threads, ops)
+	}
+	c.Loads = []c23LoadBeh{{Blocks: 1}, {Blocks: 1, Yields: rapid.IntRange(0, 5).Draw(t, "yields")}}
+	return c
+}
+
 func c23Gen() *rapid.Generator[c23Case] {
 	return rapid.Custom(func(t *rapid.T) c23Case {
-		profile := rapid.IntRange(0, 2).Draw(t, "profile") // 0: churn (1/3 of the plans), else the general mix
-		switch os.Getenv("VERIF_C23_PROFILE") { // development knob: force one profile
+		profile := rapid.IntRange(0, 5).Draw(t, "profile") // 0,1: churn (1/3 of the plans), 2: storm (1/6), else the general mix
+		switch os.Getenv("VERIF_C23_PROFILE") {            // development knob: force one profile
 		case "churn":
 			profile = 0
+		case "storm":
+			profile = 2
 		case "mix":
-			profile = 1
+			profile = 3
 		}
-		if profile == 0 {
+		if profile <= 1 {
 			return c23GenChurn(t)
+		}
+		if profile == 2 {
+			return c23GenStorm(t)
 		}
 		var c c23Case
 		c.ChunkSize = rapid.SampledFrom([]int{5, 5, 1, 2, 3, 7, 0}).Draw(t, "chunkSize")
@@ -1177,6 +1285,7 @@ func c23Gen() *rapid.Generator[c23Case] {
 			}
 			return b
 		}), 1, 12).Draw(t, "loads")
+		c.ShutdownFirst = rapid.IntRange(0, 3).Draw(t, "shutdownFirst") == 0
 		return c
 	})
 }
